@@ -78,3 +78,12 @@ Example monitor_rejects_missing_entry :
 Proof. vm_compute. reflexivity. Qed.
 Example bad_ack_satisfiable : bad_ack (final repaired init [ACreate [1] [1]]) (AAckOp 1 9 0).
 Proof. vm_compute. right. discriminate. Qed.
+(* non-vacuity of the restart regime: the cleanup of three publications is lost, the restart finds the files of
+   1, 2 and 3, resumes from 3 and hands out 4 *)
+Example restart_with_obsolete_files :
+  let acts := [ALoseRemoves true; ACreate [1] [1]; AAckOp 1 1 1; AAckSr 1 1 [7]; ACreate [1] [1]; AAckOp 2 1 2; AAckSr 2 1 [8];
+               ACreate [1] [1]; AAckOp 3 1 3; AAckSr 3 1 [9]; ARestart; ACreate [1] [1]] in
+  map sn_id (w_files (final repaired init acts)) = [3; 2; 1] /\
+  nth 10 (run repaired init acts) RFault = RRestart [3; 2; 1] (Some (MkSnap 3 [(1, 3, 3)] [9])) /\
+  nth 11 (run repaired init acts) RFault = RCreate false 4.
+Proof. vm_compute. repeat split. Qed.
